@@ -3,3 +3,5 @@
 package desync
 
 func verifYield(site string) {}
+
+func verifYieldID(site string, id ChunkID) {}
